@@ -64,9 +64,13 @@ def project_all(out):
     """everything but the recorded batches; descriptor closes are compared as a multiset per script
     (their position depends on when the last reference on a source is dropped, which the control-flow
     model does not track; C20 looks at them separately)"""
-    main = [o for o in out if not o.startswith('BATCH') and not o.startswith('close ')]
+    main = [o for o in out if not o.startswith('BATCH') and not o.startswith('close ') and not o.startswith('free ')]
     closes = sorted(o for o in out if o.startswith('close '))
-    return main + ['closes: ' + ' '.join(closes)]
+    # payload releases likewise: *when* the last reference on an event goes depends on reference counts the
+    # control-flow model does not track (an event can be in a handler's queue and in the stash at once);
+    # that each auto-free payload is released exactly once, and never before its last delivery, is checked by the C02 oracle
+    frees = sorted(o for o in out if o.startswith('free '))
+    return main + ['closes: ' + ' '.join(closes), 'frees: ' + ' '.join(frees)]
 
 
 class Gen:
@@ -290,12 +294,13 @@ ENV_ONLY = ('make_ready', 'drain', 'errno')
 
 
 class Rec:
-    __slots__ = ('op', 'depth', 'result', 'dump', 'out', 'invokes', 'parent_cb', 'prev_dump', 'nested')
+    __slots__ = ('op', 'depth', 'result', 'dump', 'out', 'invokes', 'parent_cb', 'prev_dump', 'nested', 'evt_cb')
 
     def __init__(self, op, depth, parent_cb):
         self.op, self.depth, self.parent_cb = op, depth, parent_cb
         self.result, self.dump, self.out, self.invokes = None, None, [], []
         self.prev_dump, self.nested = None, 0
+        self.evt_cb = None      # innermost enclosing handler invocation (what `stash <i>` refers to)
 
 
 def align(lines, out):
@@ -305,7 +310,7 @@ def align(lines, out):
     events = []      # output order: ('I', invoke line, record) / ('R', record)
     st = {'i': 0, 'j': 0, 'ok': True, 'last_dump': None}
 
-    def exec_op(depth, parent_cb):
+    def exec_op(depth, parent_cb, evt_cb=None):
         if st['i'] >= len(lines):
             return 'ret'
         op = lines[st['i']]
@@ -318,7 +323,9 @@ def align(lines, out):
         if t[0] in ENV_ONLY:
             return None
         r = Rec(op, depth, parent_cb)
-        r.prev_dump = st['last_dump']
+        r.evt_cb = evt_cb
+        # the dump is the state the call starts from only when nothing happened since it was printed
+        r.prev_dump = st['last_dump'] if (st['j'] > 0 and out[st['j'] - 1].startswith('S ')) or st['j'] == 0 else None
         recs.append(r)
         while True:
             if st['j'] >= len(out):
@@ -334,7 +341,7 @@ def align(lines, out):
                     if st['i'] >= len(lines):
                         break
                     r.nested += 1
-                    if exec_op(depth + 1, o) == 'ret':
+                    if exec_op(depth + 1, o, o if o.startswith('INVOKE on_evt') else evt_cb) == 'ret':
                         break
                 continue
             if o.startswith('= '):
@@ -368,7 +375,7 @@ def parse_dump(d):
     for tok in head.split():
         if tok.startswith('ctx='):
             parts = tok[4:].split(',')
-            ctx['state'] = parts[0]
+            ctx['state'] = None if parts[0] == 'none' else parts[0]
             ctx['quit'] = 'q' in parts[1:]
             ctx['fin'] = 'fin' in parts[1:]
         elif tok.startswith('run='):
